@@ -188,6 +188,25 @@ def check_worker_copies(ctx: Ctx):
             continue
         final = rows[-1]
         ctx.decide("R16.8", ev, ev.node, f"worker-copies:{how}", "copies of one aggregator evaluating n1, n2, n1 one after the other record n1 once (a copy's private memory of the claim file is brought up to date from the shared file)", sorted(final) == ["n1", "n2"], {"rows_after_each_call": rows})
+        # the statistic a copy hands out covers the rows other copies have written since it last looked
+        ms = cls.lookup("make_statistic")
+        if ms is not None:
+            def subjects(copy_):
+                o_, _ = call(prog, copy_, "make_statistic", {}, fs, lock_objs=it0.root.lock_objs)
+                if o_.kind != "return" or not isinstance(o_.value, Obj):
+                    return None  # (splits on the symbolic cell values do not concern which rows are read)
+                for k, v in o_.value.attrs.items():
+                    if "subj" in k and isinstance(v, list):
+                        return list(v)
+                return None
+
+            s1 = subjects(copies[0])
+            o3, _ = evaluate_subject(prog, copies[1], fs, "n3", lock_objs=it0.root.lock_objs)
+            s2 = subjects(copies[0])
+            if s1 is None or s2 is None or o3.decisions:
+                ctx.undecided("R16.8", ms, ms.node, f"worker-copies:{how}:statistic", "make_statistic of a copy not evaluable")
+            else:
+                ctx.decide("R16.8", ms, ms.node, f"worker-copies:{how}:statistic", "a statistic made after another copy has written a row contains that row (nothing parsed earlier is handed out again)", "n3" in s2 and "n3" not in s1, {"subjects_before": s1, "subjects_after": s2})
 
 
 def check(ctx: Ctx):
